@@ -38,7 +38,7 @@ PROP = {'gen': ['base64'],
                   'external deserialisers as oracles (rasterize, serde derive); the real answers are supplied per case',
                   'layout / render of deserialised views is observed on the implementation only',
                   HARNESS],
- 'assumptions': ['attribute sets are an underline style (0..5) plus flags, i.e. the values FaceAttrs::pack can produce',
+ 'assumptions': ['attribute sets are an underline style (0..5) plus flags: after the repair of the compound assignment operators these are all values of FaceAttrs reachable through its public API',
                  'an image in memory has h*w pixels of 4 bytes with 4*h*w < 2^64; 64-bit usize',
                  'documents reach the visitors through serde_json (text nested deeper than 128 levels is rejected by its parser)'
                  ]}
